@@ -5,6 +5,7 @@ package main
 import (
 	"context"
 	"encoding/json"
+	"go/token"
 	"go/types"
 	"fmt"
 	"os"
@@ -481,8 +482,12 @@ func (m *Model) structuralC10() []*Obl {
 						}
 					}
 				case *ssa.Range:
-					if _, ok := x.X.Type().Underlying().(*types.Map); ok && !allowedRange[name] {
-						ranges = append(ranges, fmt.Sprintf("range over a map in %s (%s)", name, m.fset.Position(x.Pos())))
+					if _, ok := x.X.Type().Underlying().(*types.Map); ok {
+						if !allowedRange[name] {
+							ranges = append(ranges, fmt.Sprintf("range over a map in %s (%s)", name, m.fset.Position(x.Pos())))
+						} else if why := m.mapRangeOrderSensitive(f, x); why != "" {
+							ranges = append(ranges, fmt.Sprintf("range over a map in %s (%s) whose body depends on the iteration order: %s", name, m.fset.Position(x.Pos()), why))
+						}
 					}
 				case *ssa.Go, *ssa.Select:
 					calls = append(calls, fmt.Sprintf("concurrency in %s (%s)", name, m.fset.Position(ins.Pos())))
@@ -495,7 +500,7 @@ func (m *Model) structuralC10() []*Obl {
 		}
 	}
 	add("package lang#structural:package-state-written-only-by-prototype-initialisers", "no package-level variable of package lang is assigned outside init, except each prototype singleton by its own lazy initialiser", len(writes) == 0, strings.Join(writes, "\n"))
-	add("package lang#structural:maps-ranged-only-where-order-is-unobservable", "range over a Go map occurs only in NewValue, toGoValueInterval, prettyStringInteral, evalExpr, evalCaseMatch, evalStatement (whose contracts collect+sort keys or build maps)", len(ranges) == 0, strings.Join(ranges, "\n"))
+	add("package lang#structural:maps-ranged-only-where-order-is-unobservable", "range over a Go map occurs only in NewValue, toGoValueInterval, prettyStringInteral, evalExpr, evalCaseMatch, evalStatement, and there only with an order-insensitive body: no early exit, no output, no fault, no write to existing values other than entering distinct keys into a map or collecting the keys into a local slice (sorted before use: see the sorted-order invariants)", len(ranges) == 0, strings.Join(ranges, "\n"))
 	add("package lang#structural:no-nondeterminism-source", "package lang starts no goroutine and calls nothing in time, math/rand, crypto/rand, os, runtime, reflect, unsafe, sync", len(calls) == 0, strings.Join(calls, "\n"))
 	return out
 }
@@ -570,4 +575,108 @@ func stripRet(n string) string {
 		return n[:i]
 	}
 	return n
+}
+
+// mapRangeOrderSensitive inspects the body of a range-over-map loop.  It returns "" when the body cannot
+// make the iteration order observable: it has no early exit (return, break, panic), calls only functions
+// that write no existing heap location and no ghost state (output, fault latch), and itself only assigns
+// locals, appends to local slices and enters keys into maps.
+func (m *Model) mapRangeOrderSensitive(f *ssa.Function, rng *ssa.Range) string {
+	var next *ssa.Next
+	for _, r := range *rng.Referrers() {
+		if n, ok := r.(*ssa.Next); ok {
+			next = n
+		}
+	}
+	if next == nil {
+		return "no Next instruction found"
+	}
+	hb := next.Block()
+	ifi, ok := hb.Instrs[len(hb.Instrs)-1].(*ssa.If)
+	if !ok || len(hb.Succs) != 2 {
+		return "unexpected loop shape"
+	}
+	_ = ifi
+	body := map[*ssa.BasicBlock]bool{}
+	var walk func(b *ssa.BasicBlock)
+	walk = func(b *ssa.BasicBlock) {
+		if b == hb || body[b] {
+			return
+		}
+		body[b] = true
+		for _, s := range b.Succs {
+			walk(s)
+		}
+	}
+	// everything reachable from the body entry without passing the header ...
+	walk(hb.Succs[0])
+	// ... that can get back to the header is the body; the rest is code after an early exit
+	reach := map[*ssa.BasicBlock]bool{}
+	changed := true
+	for changed {
+		changed = false
+		for b := range body {
+			if reach[b] {
+				continue
+			}
+			for _, s := range b.Succs {
+				if s == hb || reach[s] {
+					reach[b] = true
+					changed = true
+				}
+			}
+		}
+	}
+	for b := range body {
+		if !reach[b] {
+			return fmt.Sprintf("early exit from the loop (%s)", m.fset.Position(firstPos(b)))
+		}
+	}
+	eff := newEffects()
+	for b := range body {
+		for _, ins := range b.Instrs {
+			switch x := ins.(type) {
+			case *ssa.Return, *ssa.Panic:
+				return fmt.Sprintf("early exit from the loop (%s)", m.fset.Position(ins.Pos()))
+			case *ssa.Store:
+				// stores into local variables (including the argument array of a variadic call) are local
+				a := x.Addr
+				for {
+					switch y := a.(type) {
+					case *ssa.FieldAddr:
+						a = y.X
+						continue
+					case *ssa.IndexAddr:
+						a = y.X
+						continue
+					}
+					break
+				}
+				if _, ok := a.(*ssa.Alloc); !ok {
+					return fmt.Sprintf("store through a pointer (%s)", m.fset.Position(x.Pos()))
+				}
+			case *ssa.Go, *ssa.Defer, *ssa.Send:
+				return fmt.Sprintf("%T in the body (%s)", ins, m.fset.Position(ins.Pos()))
+			case ssa.CallInstruction:
+				if bi, ok := x.Common().Value.(*ssa.Builtin); ok && (bi.Name() == "append" || bi.Name() == "len" || bi.Name() == "cap") {
+					continue
+				}
+				m.callEffects(x.Common(), eff)
+				delete(eff.ghost, "$alloc") // allocation is not observable
+				if len(eff.heap)+len(eff.ghost) != 0 {
+					return fmt.Sprintf("a call that may write existing values, print or fail (%s; writes %v %v)", m.fset.Position(ins.Pos()), sortedKeys(eff.heap), sortedKeys(eff.ghost))
+				}
+			}
+		}
+	}
+	return ""
+}
+
+func firstPos(b *ssa.BasicBlock) token.Pos {
+	for _, ins := range b.Instrs {
+		if ins.Pos().IsValid() {
+			return ins.Pos()
+		}
+	}
+	return token.NoPos
 }
